@@ -75,15 +75,16 @@ package rel
 //@   assigns fresh-only
 //@   ensures forall i in 0..len(result) :: result[i].at != nil && result[i].value != nil
 
-// TRUSTED definitions: gcount / ghas ARE the results of GenericSet.Count / Has (bodies delegate to frozen.Set)
+// gcount / ghas are the results of GenericSet.Count / Has. No longer trusted (request of w-c01): these clauses
+// merge with the contracts in verif_contracts_c01.go and are proved from the assumed frozen.Set contracts
+// (specs/35_sets.spec) plus the definition axioms gcount(v) = fcard(root(v)), ghas(v,x) = fmem(root(v),x)
+// for tag GenericSet in specs/35_sets.smt2.
 //@ func (GenericSet).Count(s)
-//@   trusted
 //@   pure
-//@   ensures result == gcount(box(s))
+//@   ensures[C20] gcountdef: result == gcount(box(s))
 //@ func (GenericSet).Has(s; v)
-//@   trusted
 //@   pure
-//@   ensures result == ghas(box(s), v)
+//@   ensures[C20] ghasdef: result == ghas(box(s), v)
 
 //@ func ValueTypeAsString(v)
 //@   tags C10
